@@ -27,9 +27,10 @@ readname_loop(char *packet, int packetlen, char **src, char *dst, size_t length,
 	char *dummy;
 	char *s;
 	char *d;
+	char *end;
 	int len;
 	int offset;
-	char c;
+	unsigned char c;
 
 	if (loop <= 0)
 		return 0;
@@ -37,13 +38,18 @@ readname_loop(char *packet, int packetlen, char **src, char *dst, size_t length,
 	len = 0;
 	s = *src;
 	d = dst;
-	while(*s && len < length - 2) {
+	end = packet + packetlen;
+	while (s < end && *s && len < length - 2) {
 		c = *s++;
 
 		/* is this a compressed label? */
 		if ((c & 0xc0) == 0xc0) {
+			if (s >= end) {
+				/* Second byte of the pointer is missing */
+				break;
+			}
 			offset = (((s[-1] & 0x3f) << 8) | (s[0] & 0xff));
-			if (offset > packetlen) {
+			if (offset >= packetlen) {
 				if (len == 0) {
 					/* Bad jump first in packet */
 					return 0;
@@ -53,11 +59,23 @@ readname_loop(char *packet, int packetlen, char **src, char *dst, size_t length,
 				}
 			}
 			dummy = packet + offset;
-			len += readname_loop(packet, packetlen, &dummy, d, length - len, loop - 1);
+			offset = readname_loop(packet, packetlen, &dummy, d, length - len, loop - 1);
+			if (offset == 0 && len > 0) {
+				/* Nothing usable behind the pointer, terminate what we have */
+				dst[len++] = '\0';
+			}
+			len += offset;
 			goto end;
 		}
 
-		while(c && len < length - 1) {
+		if (c & 0xc0) {
+			/* Reserved label type, labels are at most 63 bytes */
+			if (len == 0)
+				return 0;
+			break;
+		}
+
+		while (c && len < length - 1 && s < end) {
 			*d++ = *s++;
 			len++;
 
@@ -68,7 +86,7 @@ readname_loop(char *packet, int packetlen, char **src, char *dst, size_t length,
 			break; /* We used up all space */
 		}
 
-		if (*s != 0) {
+		if (s < end && *s != 0) {
 			*d++ = '.';
 			len++;
 		}
@@ -76,7 +94,7 @@ readname_loop(char *packet, int packetlen, char **src, char *dst, size_t length,
 	dst[len++] = '\0';
 
 end:
-	(*src) = s+1;
+	(*src) = (s < end) ? s + 1 : end;
 	return len;
 }
 
